@@ -958,7 +958,16 @@ func (r *Runner) builtin(ctx context.Context, pos syntax.Pos, name string, args 
 			}
 		}
 	case "unalias":
+		if len(args) > 0 && args[0] == "-a" {
+			clear(r.alias) // remove all aliases
+			break
+		}
 		for _, name := range args {
+			if _, ok := r.alias[name]; !ok {
+				r.errf("unalias: %s: not found\n", name)
+				exit.code = 1
+				continue
+			}
 			delete(r.alias, name)
 		}
 
